@@ -194,9 +194,16 @@ Definition run (cl : cluster) (es : list mevent) : cluster := fold_left step es 
 Definition view (nd : node) : option pinset :=
   if negb (inited nd) then Some [] else if incons nd then None else Some (st nd).
 
+(* the newest snapshot of a store (the file store orders by (term, index)): the highest label; among equal labels the one
+   written last *)
+Fixpoint newest (l : list (nat * pinset)) : option (nat * pinset) :=
+  match l with
+  | [] => None
+  | s :: r => match newest r with Some t => if Nat.ltb (fst t) (fst s) then Some s else Some t | None => Some s end
+  end.
 (* OfflineState: the newest snapshot in the store decoded onto an empty datastore *)
 Definition offline (nd : node) : pinset :=
-  match rev (snaps nd) with [] => [] | s :: _ => restore_merge [] (snd s) end.
+  match newest (snaps nd) with None => [] | Some s => restore_merge [] (snd s) end.
 
 (* ---- vocabulary of the statements ---- *)
 Definition op_key (op : logop) : option N :=
